@@ -16,8 +16,8 @@ func isPtrToNamed(t types.Type, name string) bool {
 	if !ok {
 		return false
 	}
-	n, _ := NamedOf(pt.Elem())
-	return n == name
+	n, ok := pt.Elem().(*types.Named)
+	return ok && n.Obj().Name() == name
 }
 
 func isSliceOfPtrToNamed(t types.Type, name string) bool {
